@@ -491,6 +491,23 @@ func (ex *exprTr) call(x *ast.CallExpr) Val {
 			return Val{t: a.t, typ: t}
 		}
 		return Val{t: app(vc.S.boxOf(t).acc, a.t), typ: t}
+	case "verif_forallRange", "verif_existsRange":
+		lo, hi := ex.tr(x.Args[0]).t, ex.tr(x.Args[1]).t
+		fl, ok := x.Args[2].(*ast.FuncLit)
+		if !ok {
+			vc.fail("contract: quantifier needs a function literal")
+		}
+		n := fl.Type.Params.List[0].Names[0].Name
+		c := vc.freshName(n)
+		ex.env = append(ex.env, map[string]Val{n: {t: c, typ: types.Typ[types.Int]}})
+		body := ex.tr(fl.Body.List[0].(*ast.ReturnStmt).Results[0]).t
+		ex.env = ex.env[:len(ex.env)-1]
+		vc.quantCtx = true
+		bound := and(app("<=", lo, c), app("<", c, hi))
+		if name == "verif_forallRange" {
+			return Val{t: "(forall ((" + c + " Int)) " + implies(bound, body) + ")", typ: rt}
+		}
+		return Val{t: "(exists ((" + c + " Int)) " + and(bound, body) + ")", typ: rt}
 	case "verif_forall", "verif_exists":
 		fl, ok := x.Args[0].(*ast.FuncLit)
 		if !ok {
